@@ -419,7 +419,61 @@ pub const LET_PAIRS: &[(&str, &str)] = &[
     ("r = [random(0.5), random(7), random(0 - 2.25), random(1 / 3), random(1e300)]", "t = 0.5\nr = [random(t), random(7), random(0 - 2.25), random(1 / 3), random(1e300)]"),
     ("r = [1, 2, 3] via (q => random(q + 0.25))", "t = q => random(q + 0.25)\nr = [1, 2, 3] via t"),
     ("r = keys(count_by([\"b\", \"a\", \"c\", \"a\"], s => s))", "t = count_by([\"b\", \"a\", \"c\", \"a\"], s => s)\nr = keys(t)"),
+    // an operand that has a name must read the same after the operation (no result is built in place)
+    ("sep = \"-\"\nr = [\"ab\" + sep, \"ab\"]", "sep = \"-\"\nt = \"ab\"\nr = [t + sep, t]"),
+    ("sep = \"-\"\nr = [\"ab\" + sep + sep, \"ab\", \"ab\" + sep]", "sep = \"-\"\nt = \"ab\"\nr = [t + sep + sep, t, t + sep]"),
+    ("o = {s: \"-\"}\nr = do {\n  u = \"ab\" + o.s\n  return [u, \"ab\"]\n}", "o = {s: \"-\"}\nr = do {\n  w = \"ab\"\n  u = w + o.s\n  return [u, w]\n}"),
+    ("r = do {\n  u = (s = \"ab\") + \"c\"\n  return [s, u]\n}", "t = \"ab\"\nr = do {\n  u = (s = t) + \"c\"\n  return [s, u]\n}"),
+    ("idf = q => q\nr = do {\n  u = idf(s = \"ab\") + \"c\"\n  return [s, u]\n}", "idf = q => q\nt = \"ab\"\nr = do {\n  u = idf(s = t) + \"c\"\n  return [s, u]\n}"),
+    ("r = do {\n  u = (p = [\"k\", \"l\"])[0] + \"!\"\n  return [p, u]\n}", "t = [\"k\", \"l\"]\nr = do {\n  u = (p = t)[0] + \"!\"\n  return [p, u]\n}"),
+    ("one = 1\nr = [[1, 2] + one, [1, 2], [1, 2] * 2]", "one = 1\nt = [1, 2]\nr = [t + one, t, t * 2]"),
+    ("r = [sort([3, 1, 2]), [3, 1, 2], reverse([3, 1, 2]), [3, 1, 2]]", "t = [3, 1, 2]\nr = [sort(t), t, reverse(t), t]"),
+    ("r = [{...{a: 1}, b: 2}, {a: 1}, concat([3, 1, 2], [4]), uppercase(\"ab\"), \"ab\"]", "t = {a: 1}\nl = [3, 1, 2]\nw = \"ab\"\nr = [{...t, b: 2}, t, concat(l, [4]), uppercase(w), w]"),
+    ("r = [[...[1, 2], 3], [1, 2], [\"x\"] + \"y\", [\"x\"]]", "t = [1, 2]\nq = [\"x\"]\nr = [[...t, 3], t, q + \"y\", q]"),
 ];
+
+/// a long, ordinary program (a table of 6000 rows, about 150 KB of text) evaluated after a short one
+/// in the same process: its value is known in advance, whatever was parsed or evaluated before
+pub struct LongAfterShort;
+
+pub fn long_program(rows: usize) -> (String, f64) {
+    let mut src = String::from("rows = [\n");
+    let mut total = 0.0;
+    for i in 0..rows {
+        src.push_str(&format!("  [{}, {}.5, \"row {}\", {}],\n", i, i % 97, i, if i % 2 == 0 { "true" } else { "false" }));
+        total += i as f64 + (i % 97) as f64 + 0.5;
+    }
+    src.push_str("]\nr = sum(rows via (q => q[0] + q[1]))\n");
+    (src, total)
+}
+
+impl Check for LongAfterShort {
+    type Case = u16;
+    fn name(&self) -> &'static str {
+        "long-after-short"
+    }
+    fn run(&self, c: &u16, ctx: &mut Ctx) -> Outcome {
+        ctx.label("long-program-after-short-one");
+        ctx.nontrivial(*c as u64);
+        let rows = 3000 + (*c as usize % 4) * 1500;
+        let (src, total) = long_program(rows);
+        // what ran before: nothing, a short text, a short text that fails to parse, a short function input
+        let before = ["", "1 + 1", "((", "f = x => x * 2\nf(2)"][*c as usize / 4 % 4];
+        if !before.is_empty() {
+            let s = Sess::new();
+            let _ = s.run_program(before);
+        }
+        let s = Sess::new();
+        match s.run_program(&src) {
+            Ok(obs) => match obs.last() {
+                Some(Ok(MV::Num(x))) if x.0 == total => Ok(()),
+                other => fail!("long-after-short:wrong-result", "a {}-row table program ({} bytes) evaluated after {:?} gave {:?}, expected {}", rows, src.len(), before, other.map(|o| format!("{:?}", o).chars().take(200).collect::<String>()), total),
+            },
+            Err(e) => fail!("long-after-short:rejected", "a {}-row table program ({} bytes) evaluated after {:?} was rejected: {}", rows, src.len(), before, e.chars().take(300).collect::<String>()),
+        }
+    }
+}
+
 
 pub struct LetPairs;
 
@@ -471,5 +525,6 @@ impl Check for LetPairs {
 
 pub fn run(ctx: &mut Ctx) {
     ctx.run_enum(&LetPairs, (0..LET_PAIRS.len() as u8).into_iter(), false);
+    ctx.run_enum(&LongAfterShort, (0..16u16).into_iter(), false);
     ctx.run_random(&Deterministic, strategy(), ctx.tier.pick(20_000, 300_000));
 }
